@@ -262,7 +262,7 @@ class TypeParameter(AbstractType):
         if bound == other:
             return True
         if hasattr(bound, "get_type_variables"):
-            return other in bound.get_type_variables(None)
+            return other in _enclosed_type_variables(bound)
         return False
 
     def get_bound_rec(self, factory):
@@ -516,6 +516,28 @@ class TypeConstructor(AbstractType):
         etype = ParameterizedType(type_con, type_args)
         etype.t_constructor.supertypes = old_supertypes
         return etype
+
+
+def _enclosed_type_variables(t: Type) -> set:
+    """The type variables that occur in the type arguments (or the wildcard
+    bound) of `t`: the keys of `t.get_type_variables(factory)`, computed
+    without converting the bounds of these variables (which needs a factory).
+    """
+    if t.is_wildcard():
+        if not t.bound:
+            return set()
+        if t.bound.is_type_var():
+            return {t.bound}
+        return _enclosed_type_variables(t.bound)
+    if t.is_parameterized():
+        type_vars = set()
+        for t_arg in t.type_args:
+            if t_arg.is_type_var():
+                type_vars.add(t_arg)
+            elif t_arg.is_parameterized() or t_arg.is_wildcard():
+                type_vars.update(_enclosed_type_variables(t_arg))
+        return type_vars
+    return set()
 
 
 def _to_type_variable_free(t: Type, t_param, factory) -> Type:
